@@ -583,7 +583,31 @@ def _decide(ob, tier, res):
                     zbase = zbase + [zc]
                     res['lemmas_used'] = res.get('lemmas_used', 0) + 1
             elif v.status == 'unknown':
-                res['inconclusive'].append({'label': label, 'reason': 'solver: unknown (%s) after %.0fs' % (v.reason, v.seconds)})
+                found = False
+                if any(t.op == 'eq' for t in base) and not getattr(c, 'lemma', False) and time.time() - t_begin < budget:
+                    # the full query did not finish.  Models of path conditions with stub equations are what z3 is worst at:
+                    # ask for a CANDIDATE instead -- a model of the same query without the equations (the solver's own
+                    # value for a root is not needed: the replay computes the real one) -- and let the replay on the real
+                    # code decide.  Reproduced = a violation like any other; not reproduced = still inconclusive.
+                    try:
+                        keep = [t for t in base if t.op != 'eq']
+                        zrel = [enc.tr(t) for t in keep] + [enc.defined(t) for t in keep]
+                        v3 = smt.solve(enc, zrel + extra + [z3not(zc)] + _nice(enc), min(10, ob.timeout_s),
+                                       label=ob.id + ':' + label + ':candidate')
+                        if v3.status == 'sat':
+                            tmp = {'violations': [], 'inconclusive': []}
+                            _handle_witness(ob, enc, c, ct, zc, zrel + extra, v3, label, tmp, cache,
+                                            refine=(keep + ([when] if when is not None else []), ct))
+                            if tmp['violations']:
+                                for e_ in tmp['violations']:
+                                    e_['replay']['note'] = ('candidate from the query without the stub equations (full query: unknown); '
+                                                            + e_['replay'].get('note', '')).strip()
+                                res['violations'] += tmp['violations']
+                                found = True
+                    except NotEncodable:
+                        pass
+                if not found:
+                    res['inconclusive'].append({'label': label, 'reason': 'solver: unknown (%s) after %.0fs' % (v.reason, v.seconds)})
             else:
                 _handle_witness(ob, enc, c, ct, zc, zbase + extra, v, label, res, cache,
                                 refine=(list(base) + ([when] if when is not None else []), ct))
